@@ -612,6 +612,14 @@ theorem keeps_reRegister (s : St) (t : TowerId) : Keeps s.client (reRegister s t
         · exact Keeps.refl _
   · exact Keeps.refl _
 
+theorem consume_client (s : St) (t : TowerId) : (s.consume t).client = s.client := by
+  unfold St.consume; split <;> rfl
+
+theorem consumeIf_client (s : St) (b : Bool) (t : TowerId) : (s.consumeIf b t).client = s.client := by
+  unfold St.consumeIf; split
+  · exact consume_client s t
+  · rfl
+
 theorem keeps_runOnce (s : St) (t : TowerId) (locs : List Loc) :
     Keeps s.client (runOnce s t locs).1.client := by
   unfold runOnce
@@ -621,7 +629,7 @@ theorem keeps_runOnce (s : St) (t : TowerId) (locs : List Loc) :
     rw [heq] at k; exact k
   · rename_i s1 heq
     rw [heq] at k
-    simp only [St.withClient]
+    simp only [consume_client, St.withClient]
     exact k.trans (keeps_sendAll t _ locs _)
 
 theorem keeps_runRetrier (t : TowerId) (locs : List Loc) : ∀ (fuel : Nat) (s : St),
@@ -691,8 +699,12 @@ theorem keeps_notifyTower (s : St) (t : TowerId) (l : Loc) :
   unfold notifyTower
   have k := keeps_hookTower s t l
   split
-  · rename_i s1 heq; rw [heq] at k; exact k.trans (keeps_retry _ t _)
-  · rename_i s1 heq; rw [heq] at k; exact k
+  · rename_i s1 heq; rw [heq] at k
+    have := keeps_retry (s1.consumeIf (asked s t l) t) t (s1.pendingOf t)
+    rw [consumeIf_client] at this
+    exact k.trans this
+  · rename_i s1 heq; rw [heq] at k
+    rw [consumeIf_client]; exact k
 
 theorem keeps_foldl {α : Type} (f : St → α → St) (hf : ∀ s a, Keeps s.client (f s a).client) :
     ∀ (xs : List α) (s : St), Keeps s.client (xs.foldl f s).client := by
